@@ -3,5 +3,5 @@ From Mds Require Import Common.ExtractBase Gen.MbitsIdx Gen.MstrMasks Mbits.Byte
 Require Extraction.
 Require Import ExtrOcamlBasic.
 Extraction "bytes_model.ml" MbitsModel.zero MbitsModel.leading_zeroes MbitsModel.trailing_zeroes
-  MstrModel.trunc MstrModel.compare_natural MstrModel.parse_int
-  MstrSpec.key MstrSpec.key_cmp MstrSpec.valid_utf8b MstrSpec.normal_form base_types.
+  MstrModel.trunc MstrModel.compare_natural MstrModel.compare_natural_wide MstrModel.parse_int
+  MstrSpec.key MstrSpec.wkey MstrSpec.key_cmp MstrSpec.valid_utf8b MstrSpec.normal_form base_types.
